@@ -74,6 +74,24 @@ MEGA = {"C01", "C02", "C03", "C04", "C05", "C08", "C09", "C10", "C12", "C13", "C
 PENDING = {
 }
 
+# added after the fourth round of seeded changes (DESIGN.md 11.1): one more sentence per check
+EXTRA = {
+    "C01": " Texts may be empty or blank; every mega conversation is also compared with its single-read twin (same callbacks however the input is cut).",
+    "C02": " Texts may be empty or blank; a group injects one transient Interrupted/WouldBlock/TimedOut per conversation (callbacks must stay a verbatim prefix of the model's list, the whole list if run_on returns Ok); every eighth mega conversation is repeated over a real loopback TCP socket through run_on_tcp and must give the same callbacks, result class and bytes.",
+    "C03": " Replies of exactly 253..259 and 509..515 (thorough: up to 4099) wire packets assembled from random chained sets, each followed by a distinguishable command and a sentinel.",
+    "C04": " Unfinished rows that already filled a 2^24-1 packet and are then abandoned (finish_error / finish / drop): either a call reports the refusal or the whole output is well-framed and conformant; mega conversations are byte-compared with their single-read, unlimited-write twin.",
+    "C05": " Mega conversations are byte-compared with their single-read twin (ids cannot depend on how the input was cut).",
+    "C06": " A sized-cell sweep (4 KiB..64 KiB around the powers of two, 1..4 MiB) mixed with NULLs, small cells and small rows.",
+    "C07": " A sized-cell sweep (4 KiB..64 KiB around the powers of two, 1..4 MiB) mixed with NULLs, small cells and small rows.",
+    "C09": " Every case starts with a random legal handshake response (4.1 or 3.20 layout, capability class).",
+    "C11": " A shim with only the required methods (trait defaults in force) and TLS upgrades with varied SSLRequests (capabilities, max-packet, charset, reserved bytes) are judged by the same clauses.",
+    "C12": " Commands of 16 MiB and more (QUERY, LONG_DATA+EXECUTE) in lock-step under four read patterns.",
+    "C15": " Sessions of 2-6 integer resultsets of different widths on one connection, every cell a must-accept pair, decoded with the received definitions.",
+    "C18": " SSLRequest and in-TLS response vary (capabilities, max-packet, charset, reserved bytes); the client may put every command into a TLS record of its own.",
+    "C19": " TLS connections whose stream ends inside the SSLRequest, inside a TLS-handshake record, or inside the record of the handshake response or of a command: an error is demanded, and no callback for anything the cut record carried.",
+    "C20": " Well-formed requests of 2^24-1 + tail bytes for tails 0..70000 (thorough: up to 2^24+6) under five read patterns must be served.",
+}
+
 ALL = ["C%02d" % i for i in range(1, 21)]
 
 
@@ -86,6 +104,7 @@ def main():
         if pid in MEGA:
             text += " In addition the shared mega workload (props/mega.rs: long model-driven histories mixing every command kind, re-prepares, rebind/reuse/long-data executions, chained responses, repeated headers, replies around 256 packets, megabyte commands, dead-id operations) is run under this property's own monitor" + (" over TLS against its plaintext twin." if pid == "C18" else ".")
             tech += "; shared mega-history workload under the same oracle"
+        text += EXTRA.get(pid, "")
         checks.append({
             "property_id": pid,
             "quick_cmd": "./check %s quick" % pid,
